@@ -9,6 +9,14 @@ ALL = ["C%02d" % i for i in range(1, 21)]
 
 # id -> dict(level, technique, text, note, design_ref, engine)
 CHECKS = {
+    "C07": dict(
+        level="exploration",
+        engine="E1-enum",
+        technique="bounded-exhaustive enumeration of all pairs and triples of an edge-value alphabet against the order/equality/hash laws, and of all short lists against each collection filter's defining law",
+        text="Every ordered pair and triple of the edge alphabet (all kinds, every integer representation at 2^31/2^32/2^53/2^63/2^64/2^127/2^128 boundaries, floats incl. +-0/inf/NaN, plain/small/safe strings, bytes, lists, tuples, sized/unsized lazy iterables, maps, plain objects, nested) is checked for reflexivity, antisymmetry, eq symmetry, eq<=>cmp==Equal, eq=>same hash, transitivity of <= and ==, and for agreement of the template operators, `in` and map lookup with the Value-level answers. All lists up to length 4 (quick) / 5 (thorough) over a mixed 8-value alphabet go through sort (all option combinations, attribute), groupby, unique, batch, slice (n=1..6, +-fill), min, max, reverse and are compared with each filter's law (sort against a reference stable sort with the same comparator). Long cyclic lists (21/33/64) exercise Rust's total-order detection. Laws are universally quantified over pairs/triples; enumeration of the boundary alphabet visits every cross-kind combination the hand-written Ord/Eq/Hash distinguish.",
+        note="The comparator of the reference sort is the engine's own Value::cmp (the property is about that order). NaN exempt as stated. The preserve_order (IndexMap) build is not exercised. Ten law classes and the map-reverse defect are recorded known findings (value-model design decisions / behaviour pinned by upstream tests).",
+        design_ref="2/C07",
+    ),
     "C08": dict(
         level="exploration",
         engine="E1-enum",
